@@ -375,3 +375,47 @@ def decorators_pass_through(ctx, rule='C08-R3'):
         ctx.check(not c.loops and not [e for e in evs if e.kind == 'except'], rule, inner, c.node, c.loc(),
                   'wrapped call sits in a loop or under an exception handler',
                   instance=f'{inner.split(".<locals>")[0]}: straight-line call')
+
+
+def chunk_never_empty(ctx, rule='C08-R2'):
+    """The screening refuses an empty frame (AmpycloudError), and the stages rely on at least one row
+    (`self.data.loc[:, 'slice_id'] = -1` raises ValueError on an empty frame).  Any row removal between the
+    screening and the chunk must therefore be followed by an emptiness refusal of its own."""
+    from sa.rules.tablemodel import flatten
+    from sa.rules.typestate import _own_condition
+    fx = effects(ctx)
+    p = ctx.project
+    q = 'ampycloud.data.AbstractChunk._cleanup_pdf'
+    f = p.func(q, rule)
+    evs = fx.own_events(q)
+    removers = []
+    for e in evs:
+        c = None
+        if e.kind == 'assign' and tag(e.value) == 'mcall':
+            c = e.value
+        elif e.kind == 'mutcall':
+            c = e.call
+        if c is not None and tag(c) == 'mcall' and c[2] in ('drop', 'dropna', 'drop_duplicates', 'query', 'head', 'tail') \
+                and dict(c[4]).get('axis', C(0)) in (C(0), C('index')) and not dict(c[4]).get('columns'):
+            removers.append(e)
+        if e.kind == 'assign' and tag(e.value) == 'mask' and tag(T.root(e.value)) in ('call', 'p', 'upd', 'mcall'):
+            removers.append(e)
+    refusals = []
+    for e in evs:
+        if e.kind != 'raise':
+            continue
+        cond = _own_condition(e, evs)
+        if cond is not None and tag(cond) == 'cmp' and cond[1] in ('eq', 'le', 'lt') and T.contains(
+                cond, lambda x: tag(x) == 'call' and x[1] == ('g', 'builtins.len')):
+            refusals.append(e)
+        if cond is not None and tag(cond) == 'attr' and cond[2] == 'empty':
+            refusals.append(e)
+    ctx.floor(rule, 'row removals in _cleanup_pdf', len(removers), 1)
+    for e in removers:
+        ok = any(r.seq > e.seq for r in refusals)
+        ctx.check(ok, rule, q, e.node, e.loc(),
+                  'rows are removed from the screened frame and nothing refuses an empty result: a frame whose hits are '
+                  'all of type >= 2 above MSA + MSA_HIT_BUFFER (legal: a type-2 hit without its type-1 hit is a '
+                  'warning-only anomaly) is cropped to nothing, and find_slices() then dies with a pandas ValueError '
+                  'instead of an AmpycloudError or a result',
+                  instance='_cleanup_pdf: row removal followed by an emptiness refusal')
